@@ -68,7 +68,7 @@ func allCfgs() []Cfg {
 // ---- operations ------------------------------------------------------------------------------------------------
 
 type Op struct {
-	Kind  string `json:"op"` // ask | rej | ttl | adv | jan | clone
+	Kind  string `json:"op"` // ask | rej | ttl | adv | jan | clone | fail
 	Name  string `json:"name,omitempty"`
 	Qtype uint16 `json:"qtype,omitempty"`
 	Scope string `json:"scope,omitempty"`
@@ -91,6 +91,8 @@ func (o Op) String() string {
 		return "janitor()"
 	case "clone":
 		return "reload_clone()"
+	case "fail":
+		return "routing_sync_callback_fails_for_next_insert"
 	}
 	return "?"
 }
@@ -123,6 +125,7 @@ type Layer struct {
 	DepthQ   int
 	DepthT   int
 	InitTtl  uint32
+	Fault    bool // include the environment fault "the routing-sync callback (CacheAccessCallback) fails for the next insert"
 	Prefix   []Op // every history of the layer starts with these operations (depth counts the operations after them)
 	OnlyMax  bool // layer applies only to configurations with a size limit
 }
@@ -141,17 +144,23 @@ func product() []qkey {
 
 func layers() []Layer {
 	return []Layer{
-		// types: one name asked with six record types (A, AAAA, SOA, TXT, SVCB, HTTPS: every kind of cache-key construction,
-		// table fast path and numeric slow path) through one upstream, plus HTTPS as-is
-		{Name: "types", Keys: []qkey{{"a.", 1, "u1"}, {"a.", 28, "u1"}, {"a.", 6, "u1"}, {"a.", 16, "u1"}, {"a.", 64, "u1"}, {"a.", 65, "u1"}, {"a.", 65, "asis"}}, AllTgts: true, Jan: true, Clone: true, DepthQ: 2, DepthT: 4, InitTtl: 20},
+		// types: one name asked with seven record types (A, AAAA, SOA, TXT, SVCB, HTTPS, and CAA=257 whose low byte is A: every kind of
+		// cache-key construction, table fast path and numeric slow path, one- and two-byte type numbers) through one upstream, plus HTTPS as-is
+		{Name: "types", Keys: []qkey{{"a.", 1, "u1"}, {"a.", 28, "u1"}, {"a.", 6, "u1"}, {"a.", 16, "u1"}, {"a.", 64, "u1"}, {"a.", 65, "u1"}, {"a.", 257, "u1"}, {"a.", 65, "asis"}}, AllTgts: true, Jan: true, Clone: true, DepthQ: 2, DepthT: 4, InitTtl: 20},
 		// reload: an answer obtained with a long upstream TTL (120 s, longer than the fixed TTL of a.) is in the cache; then every
 		// continuation over two questions, all clock targets of every entry, janitor and reload clone
 		{Name: "reload", Keys: []qkey{{"a.", 1, "u1"}, {"b.", 1, "u1"}}, AllTgts: true, Slack: true, Jan: true, Clone: true, DepthQ: 3, DepthT: 5, InitTtl: 120,
 			Prefix: []Op{{Kind: "ask", Name: "a.", Qtype: 1, Scope: "u1"}}},
 		// lru: size-limit configurations only; the cache is pre-filled with three answers (one more than max_cache_size=2) by a
 		// fixed prefix, then every continuation over the narrow alphabet (no TTL switch, no clone)
-		{Name: "lru", Keys: []qkey{{"a.", 1, "u1"}, {"b.", 1, "u1"}, {"A.", 1, "u2"}}, AllTgts: false, Jan: true, Clone: true, DepthQ: 4, DepthT: 5, InitTtl: 1, OnlyMax: true,
+		{Name: "lru", Keys: []qkey{{"a.", 1, "u1"}, {"b.", 1, "u1"}, {"A.", 1, "u2"}}, AllTgts: false, Jan: true, Clone: true, Fault: true, DepthQ: 4, DepthT: 5, InitTtl: 1, OnlyMax: true,
 			Prefix: []Op{{Kind: "ask", Name: "a.", Qtype: 1, Scope: "u1"}, {Kind: "ask", Name: "b.", Qtype: 1, Scope: "u1"}, {Kind: "ask", Name: "A.", Qtype: 1, Scope: "u2"}}},
+		// lrufault: size-limit configurations; three answers are cached (one over the limit) and the clock stands 1 ns before the
+		// end of life of the last one (the earlier ones have expired); then every continuation with the environment fault
+		// "the routing-sync callback fails for the next insert" (stale serve -> background refresh whose sync fails -> janitor)
+		{Name: "lrufault", Keys: []qkey{{"a.", 1, "u1"}, {"b.", 1, "u1"}, {"A.", 1, "u2"}}, AllTgts: false, Jan: true, Fault: true, DepthQ: 4, DepthT: 5, InitTtl: 1, OnlyMax: true,
+			Prefix: []Op{{Kind: "ask", Name: "a.", Qtype: 1, Scope: "u1"}, {Kind: "ask", Name: "b.", Qtype: 1, Scope: "u1"}, {Kind: "ask", Name: "A.", Qtype: 1, Scope: "u2"},
+				{Kind: "adv", At: 1_014_999_999, Why: "1ns before the end of life of the third answer (lifetime 1 s)"}}},
 		// narrow: three questions (two names, a case variant on another upstream), short/long upstream TTL, clock targets of the
 		// most recently obtained answer + pending refreshes, janitor, reload clone — the deepest layer (time semantics, LRU with max_cache_size=2)
 		{Name: "narrow", Keys: []qkey{{"a.", 1, "u1"}, {"b.", 1, "u1"}, {"A.", 1, "u2"}}, Ttls: []uint32{1, 120}, AllTgts: false, Slack: true, Jan: true, Clone: true, DepthQ: 4, DepthT: 6, InitTtl: 1},
@@ -178,6 +187,9 @@ func (l *Layer) staticOps() []Op {
 	}
 	if l.Clone {
 		ops = append(ops, Op{Kind: "clone"})
+	}
+	if l.Fault {
+		ops = append(ops, Op{Kind: "fail"})
 	}
 	return ops
 }
@@ -306,6 +318,8 @@ func run(cfg Cfg, l *Layer, hist []Op, trace bool) (out execOut) {
 				if trace {
 					fmt.Fprintf(&traceBuf, "  %-34s now %s\n", op, fmtDur(now()-epoch))
 				}
+			case "fail":
+				ctl.FailNextAccessCallbacks(1)
 			case "jan":
 				ctl.Janitor()
 				vsched.Quiesce()
@@ -344,7 +358,7 @@ func run(cfg Cfg, l *Layer, hist []Op, trace bool) (out execOut) {
 			}
 		}
 		t := now()
-		h := sha256.Sum256([]byte(ctl.DumpString() + "#" + ref.dump(t) + "#" + fmt.Sprint(ttlMode)))
+		h := sha256.Sum256([]byte(ctl.DumpString() + "#" + ref.dump(t) + "#" + fmt.Sprint(ttlMode, ctl.ArmedAccessFailures())))
 		out.Key = string(h[:16])
 		out.Targets = targets(ref, l, ctl.Exchanges(), t)
 		out.CanClone = ctl.InFlight() == 0
@@ -512,6 +526,9 @@ func bfs(cfg Cfg, thorough bool, deadline time.Time) *workerOut {
 				for _, op := range ops {
 					if op.Kind == "clone" && !n.canClone {
 						continue
+					}
+					if op.Kind == "fail" && len(n.hist) > 0 && n.hist[len(n.hist)-1].Kind == "fail" {
+						continue // harness-only no-op: the fault is already armed
 					}
 					if op.Kind == "ttl" && (op.Ttl == curTtl(&l, n.hist) || (len(n.hist) > 0 && n.hist[len(n.hist)-1].Kind == "ttl")) {
 						continue // harness-only no-ops: switch to the value already set / two switches in a row
